@@ -1,7 +1,78 @@
 import CddVerif.Driver.Basic
+import CddVerif.Model.Doc
 /-! Driver ops for C01 (line protocol; see Main.lean). Only Mathlib-free imports here. -/
 namespace Driver.C01
-open Lean Driver
+open Lean Driver Doc
 
-def ops : List (String × Handler) := []
+def optChars (j : Json) (k : String) : Option (List Char) :=
+  match j.getObjVal? k with | .ok (.str s) => some s.toList | _ => none
+
+def defaultOf (j : Json) : Option Default :=
+  match j with
+  | .arr a =>
+    let tag : String := match a[0]? with | some (Json.str t) => t | _ => ""
+    if tag == "int" then (a[1]? >>= fun x => x.getInt?.toOption).map Default.int
+    else if tag == "float" then (a[1]? >>= fun x => x.getStr?.toOption).map (fun s => Default.float s.toList)
+    else if tag == "bool" then (a[1]? >>= fun x => x.getBool?.toOption).map Default.bool
+    else if tag == "str" then (a[1]? >>= fun x => x.getStr?.toOption).map (fun s => Default.str s.toList)
+    else if tag == "none" then some Default.none
+    else if tag == "code" then (a[1]? >>= fun x => x.getStr?.toOption).map (fun s => Default.code s.toList)
+    else none
+  | _ => none
+
+def paramOf (j : Json) : Param :=
+  { typ := optChars j "typ", doc := optChars j "doc", default := (j.getObjVal? "default").toOption >>= defaultOf }
+
+def irOf (j : Json) : Except String IR := do
+  let doc := (optChars j "doc").getD []
+  let ps ← (← getArr j "params").toList.mapM (fun kv => do
+    let a ← kv.getArr?
+    let n ← a[0]!.getStr?
+    return (n.toList, paramOf a[1]!))
+  let rt := match j.getObjVal? "returns" with | .ok (.obj o) => some (paramOf (.obj o)) | _ => none
+  return { doc := doc, params := ps, returns := rt }
+
+def defaultJ : Default → Json
+  | .int i => Json.arr #[Json.str "int", int i]
+  | .float r => Json.arr #[Json.str "float", str r]
+  | .bool b => Json.arr #[Json.str "bool", Json.bool b]
+  | .str s => Json.arr #[Json.str "str", str s]
+  | .none => Json.arr #[Json.str "none"]
+  | .code s => Json.arr #[Json.str "code", str s]
+
+def paramJ (p : Param) : Json :=
+  Json.mkObj [("typ", optStr p.typ), ("doc", optStr p.doc), ("default", match p.default with | some d => defaultJ d | none => Json.null)]
+
+def irJ (ir : IR) : Json :=
+  Json.mkObj [("doc", str ir.doc), ("params", Json.arr (ir.params.map (fun kv => Json.arr #[str kv.1, paramJ kv.2])).toArray),
+              ("returns", match ir.returns with | some r => paramJ r | none => Json.null)]
+
+def styleOf (s : String) : Style := if s == "google" then .google else if s == "numpydoc" then .numpydoc else .rest
+
+def ops : List (String × Handler) := [
+  ("c01.emit", fun j => do
+    let ir ← irOf (← j.getObjVal? "ir")
+    let style := styleOf ((getStr j "style").toOption.getD "rest")
+    let et := (getBool j "emit_types").toOption.getD true
+    let ww := (getBool j "word_wrap").toOption.getD true
+    let edd := (getBool j "edd").toOption.getD true
+    match emit ir style et ww edd with
+    | .ok s => return Json.mkObj [("r", str s)]
+    | .outside w => return Json.mkObj [("outside", Json.str w)]),
+  ("c01.parse", fun j => do
+    let text ← getChars j "text"
+    let edd := (getBool j "edd").toOption.getD true
+    match parseRest text edd with
+    | .ok ir => return Json.mkObj [("ir", irJ ir)]
+    | .outside w => return Json.mkObj [("outside", Json.str w)]),
+  ("c01.extract", fun j => do
+    let line ← getChars j "line"
+    let typ := optChars j "typ"
+    let edd := (getBool j "edd").toOption.getD true
+    match extractDefault line typ edd with
+    | .ok (d, v) => return Json.mkObj [("doc", str d), ("default", match v with | some x => defaultJ x | none => Json.null)]
+    | .outside w => return Json.mkObj [("outside", Json.str w)]),
+  ("c01.needs_quoting", fun j => do
+    return Json.mkObj [("r", Json.bool (needsQuoting (optChars j "typ")))])
+]
 end Driver.C01
